@@ -458,3 +458,56 @@ var anchorSigs = func() map[string]string {
 	_ = json.Unmarshal(anchorsJSON, &m)
 	return m
 }()
+
+// calleeAnchors: functions that rules recognise by NAME at call sites (methodName(call) == "...",
+// f.Name() == "..."). They are looked up once per run so that their signatures are in the anchor
+// table and a rename can be mapped back (nameAlias).
+var calleeAnchors = []struct{ rel, name string }{
+	{"rpc/socket", "parseHeader"}, {"rpc/udp", "parseHeader"}, {"rpc/websocket", "parseHeader"},
+	{"rpc/socket", "makeHeader"}, {"rpc/udp", "makeHeader"}, {"rpc/websocket", "makeHeader"},
+	{"rpc/socket", "conn.loadAndDelete"}, {"rpc/udp", "conn.loadAndDelete"}, {"rpc/websocket", "conn.loadAndDelete"},
+	{"rpc/socket", "conn.rangeAndClean"}, {"rpc/udp", "conn.rangeAndClean"}, {"rpc/websocket", "conn.rangeAndClean"},
+	{"rpc/socket", "conn.store"}, {"rpc/udp", "conn.store"}, {"rpc/websocket", "conn.store"},
+	{"rpc/socket", "conn.delete"}, {"rpc/udp", "conn.delete"}, {"rpc/websocket", "conn.delete"},
+	{"rpc/socket", "Handler.sendResponse"}, {"rpc/udp", "Handler.sendResponse"}, {"rpc/websocket", "Handler.sendResponse"},
+	{"rpc/socket", "Handler.run"}, {"rpc/udp", "Handler.run"}, {"rpc/websocket", "Handler.run"},
+	{"rpc/socket", "Handler.task"}, {"rpc/udp", "Handler.task"}, {"rpc/websocket", "Handler.task"},
+	{"rpc/socket", "Handler.getServiceContext"}, {"rpc/udp", "Handler.getServiceContext"}, {"rpc/websocket", "Handler.getServiceContext"},
+	{"io", "Decoder.loadMore"}, {"io", "getFields"}, {"io", "appendName"}, {"io", "Decoder.decodeError"},
+	{"rpc/core", "pluginManager.rebuildHandler"},
+}
+
+// nameAlias: current name -> reference name, for anchor functions that were renamed (resolved by
+// signature). Filled by resolveAliases after loading.
+var nameAlias = map[string]string{}
+
+func (p *Prog) resolveAliases() {
+	nameAlias = map[string]string{}
+	for _, a := range calleeAnchors {
+		p.LookupFunc(a.rel, a.name)
+	}
+	for k := range anchorSigs {
+		i := strings.Index(k, " ")
+		rel, name := k[:i], k[i+1:]
+		if p.lookupFuncByName(rel, name) != nil {
+			continue
+		}
+		if f := p.lookupRenamed(rel, name); f != nil {
+			base := name
+			if j := strings.LastIndex(base, "."); j >= 0 {
+				base = base[j+1:]
+			}
+			if f.Name() != base {
+				nameAlias[f.Name()] = base
+			}
+		}
+	}
+}
+
+// refName: the reference-tree name of a (possibly renamed) anchor function.
+func refName(name string) string {
+	if a, ok := nameAlias[name]; ok {
+		return a
+	}
+	return name
+}
